@@ -107,12 +107,16 @@ PAIRS = [(0, 0), (1, 1), (2, 2), (0, 3), (4, 4), (1, 3), (2, 1)]
 TRIPLES = [(0, 0, 3), (1, 1, 1), (4, 0, 1)]
 
 
-@obligation(tier="quick", timeout=300, shards=[{"docs": list(p)} for p in PAIRS] + [{"docs": list(t)} for t in TRIPLES],
-            quick_shards=[0, 1, 2, 3, 4],
+FAULTS = [(0, 0), (1, 0), (2, 1), (0, 2), (3, 0), (3, 3)]
+SH15 = [{"docs": list(p), "f": list(f)} for p in PAIRS for f in FAULTS] + [{"docs": list(t), "f": list(f)} for t in TRIPLES for f in FAULTS[:3]]
+QUICK15 = [i for i, s in enumerate(SH15) if (s["f"] == [0, 0] and len(s["docs"]) == 2 and s["docs"] in ([0, 0], [1, 1], [2, 2], [4, 4], [0, 3])) or (s["docs"] == [0, 3] and s["f"] in ([2, 1], [3, 3])) or (s["docs"] == [1, 3] and s["f"] == [1, 0])]
+
+
+@obligation(tier="quick", timeout=300, shards=SH15, quick_shards=QUICK15,
             samples=[{"c0": 0, "c1": 0, "c2": 0, "c3": 0, "c4": 0, "c5": 0, "v0": 1, "v1": 2, "s0": True, "s1": False, "f0": 0, "f1": 0},
                      {"c0": 1, "c1": 2, "c2": 0, "c3": 1, "c4": 0, "c5": 0, "v0": 2**31, "v1": -1, "s0": False, "s1": True, "f0": 2, "f1": 1}],
             symbolic=["c0..c5: completion order of the pending resolvers across all requests", "v0, v1: int variables per request (unbounded)", "s0, s1: Boolean variables per request"],
-            selectors=["f0, f1: per-request fault (none / raise / raise a TartifletteError subclass / raise a module-level error instance)", "shard: which documents are in flight"],
+            selectors=["shard: which documents are in flight; per-request fault (none / raise / raise a TartifletteError subclass / raise a module-level error instance)"],
             bounds="2-3 requests, <= 2 gates each", findings=["F7"],
             note="each concurrent response == its solo response on the same engine; a probe request afterwards == its response on a never-shared uncached engine")
 def c15_concurrent(c0: int, c1: int, c2: int, c3: int, c4: int, c5: int, v0: int, v1: int, s0: bool, s1: bool, f0: int, f1: int) -> bool:
@@ -120,7 +124,7 @@ def c15_concurrent(c0: int, c1: int, c2: int, c3: int, c4: int, c5: int, v0: int
     post: _
     """
     docs = shard()["docs"]
-    f0 = pick(f0, 4); f1 = pick(f1, 4)
+    f0, f1 = shard()["f"]
     if finding_open("F7") and is_f7([f0, f1]):
         return True
     vs = [v0, v1, 7]; ss = [pickb(s0), pickb(s1), True]; fs = [f0, f1, 0]
